@@ -11,7 +11,7 @@ GUARD = "TE_DENSITY_VERIF"
 
 TRUSTED_BASE = [
     "Coq 8.16.1 kernel + coqc; vm_compute (bytecode VM) used for Examples, refutation witnesses and model evaluation; no native_compute",
-    "axioms: none declared; every Props theorem must print 'Closed under the global context' (checked on every run)",
+    "axioms: none declared; every Props theorem must print 'Closed under the global context' (checked on every run), except Props/C03float.v (Flocq over Coq's reals), whose theorems depend on exactly the standard library's ClassicalDedekindReals.sig_forall_dec, ClassicalDedekindReals.sig_not_dec, FunctionalExtensionality.functional_extensionality_dep, Classical_Prop.classic (also checked on every run)",
     "translator /verif/translator/py2gallina.py (Python ast -> Gallina; pointwise reading of numpy array expressions; np.clip(x,0,None)=max 0 x; Python range)",
     "correspondence harness /verif/harness (generators, drivers, abstraction functions, float acceptance rule |v-N/D|<=2^-22 and round(v*D)=N, parser of Coq's printed list Z); no OCaml extraction",
     "CPython 3.12, pandas 3.0.6, numpy 2.5.3, h5py 3.16/HDF5, multiprocessing, the file system",
@@ -123,7 +123,10 @@ def props_assumptions(prop_file):
     if r.returncode != 0:
         return None, out
     closed = out.count("Closed under the global context")
-    axioms = re.findall(r"Axioms:\n((?:.+\n)+)", out)
+    blocks = re.findall(r"Axioms:\n((?:.+\n?)+?)(?=Axioms:|\Z|Closed under)", out)
+    axioms = []
+    for b in blocks:
+        axioms.append(sorted(set(re.findall(r"^([A-Za-z_][\w.']*)\s*(?::|$)", b, flags=re.M))))
     src = open(path).read()
     n_print = len(re.findall(r"^Print Assumptions", src, flags=re.M))
     thms = re.findall(r"^(?:Theorem|Corollary)\s+(\w+)", src, flags=re.M)
